@@ -26,8 +26,10 @@ extern int64_t c06_ext (int64_t);
 extern void *c06_target;
 extern uint64_t c06_pat[6];
 extern struct c06_obs c06_obs;
-extern uint64_t c06_ext_mis, c06_ext_calls;
+extern uint64_t c06_ext_mis, c06_ext_calls, c06_pop_x87;
 
+_Static_assert (offsetof (struct c06_obs, ret_rax) == 128 && sizeof (struct c06_obs) == 256,
+                "c06_obs layout is used literally in c06_call.S");
 uint8_t c06_out[C06_OUT_SIZE] __attribute__ ((aligned (16)));
 uint64_t c06_tab[64];
 static uint8_t res_buf[64] __attribute__ ((aligned (16)));
@@ -102,7 +104,9 @@ static int run_one (struct c06_case *c, const char *iface, struct c06_env *env, 
   memset (&c06_obs, 0, sizeof (c06_obs));
   memcpy (c06_pat, PAT, sizeof (PAT));
   c06_ext_mis = c06_ext_calls = 0;
+  __asm__ volatile ("fninit"); /* every call starts from an empty x87 stack: a leak is charged to the case that leaks */
   c06_target = func_item->addr;
+  c06_pop_x87 = (flags & 2) ? (uint64_t) c->n_ld_res : 0; /* caller typed `void`: trampoline pops st0/st1 */
   c->call (env);
   /* ---- report */
   if (flags & 1) { /* vararg: make the va_list image position independent */
@@ -118,6 +122,8 @@ static int run_one (struct c06_case *c, const char *iface, struct c06_env *env, 
   hex (c06_out, out_len);
   printf (" res=");
   hex (res_buf, 48);
+  printf (" ret=");
+  hex ((const uint8_t *) &c06_obs.ret_rax, 80);
   printf (" rsp=%lld regs=", (long long) (c06_obs.rsp_after - c06_obs.rsp_before));
   for (int i = 0; i < 6; i++) printf ("%s%llx", i ? "," : "", (unsigned long long) (c06_obs.regs_after[i] ^ PAT[i]));
   {
